@@ -192,3 +192,57 @@ def offset_for_local(name, local_epoch_seconds):
         return None
     o = found.pop()
     return o if stable_around(name, local_epoch_seconds - o) else None
+
+
+# ------------------------------------------------------------------------------------------------
+# instants CLOSE to a daylight-saving switch (minutes to a few hours), for zones whose rules of 2008-2019 are identical in
+# tzdb 2022a (chrono-tz 0.6.3) and in the system's tz database; local times that are ambiguous (the repeated hour) are left out
+# ------------------------------------------------------------------------------------------------
+NEAR_ZONES = ["Europe/Warsaw", "Europe/London", "Europe/Berlin", "America/New_York", "America/Los_Angeles", "Australia/Sydney"]
+_switches = {}
+
+
+def switches(name):
+    """UTC instants (epoch seconds) of the offset changes of `name` between 2008 and 2019, found by bisection on offset_at"""
+    sw = _switches.get(name)
+    if sw is None:
+        sw = []
+        t = int(datetime(2008, 1, 1, tzinfo=timezone.utc).timestamp())
+        end = int(datetime(2019, 6, 1, tzinfo=timezone.utc).timestamp())
+        step = 20 * 86400
+        while t < end:
+            if offset_at(name, t) != offset_at(name, t + step):
+                lo, hi = t, t + step
+                while hi - lo > 1:
+                    mid = (lo + hi) // 2
+                    if offset_at(name, mid) == offset_at(name, lo):
+                        lo = mid
+                    else:
+                        hi = mid
+                sw.append(hi)
+            t += step
+        _switches[name] = sw
+    return sw
+
+
+def unambiguous_local(name, epoch_seconds):
+    """True when the local wall-clock time of this instant denotes exactly this instant (not inside a repeated hour)"""
+    o = offset_at(name, epoch_seconds)
+    local = epoch_seconds + o
+    found = set()
+    for probe in (-7200, 0, 7200):
+        o2 = offset_at(name, epoch_seconds + probe)
+        t2 = local - o2
+        if offset_at(name, t2) == o2:
+            found.add(t2)
+    return found == {epoch_seconds}
+
+
+def near_switch_instant(src, name):
+    """an instant within 3 h of a switch of `name` whose local time is unambiguous"""
+    sw = switches(name)
+    for _ in range(20):
+        t = src.choice(sw) + src.choice([1, -1]) * src.weighted([(3, src.int(0, 59) * 60), (3, src.int(60, 180) * 60), (1, src.int(0, 10800))])
+        if unambiguous_local(name, t):
+            return t
+    return stable_instant(name, sw[0] + 30 * 86400)
